@@ -62,7 +62,7 @@ func sortTokenLen(s string) int {
 }
 
 type Term struct {
-	Op    string  // operator / symbol name / literal text
+	Op    string // operator / symbol name / literal text
 	Args  []*Term
 	Sort  Sort
 	ID    int
@@ -111,6 +111,9 @@ type Ctx struct {
 	// DefFuns: defined functions (name -> full define-fun text), emitted when referenced.
 	DefFuns   map[string]*DefFun
 	defOrder  []string
+	fieldMemo map[string]map[[2]int]*Term
+	quantMemo map[int]bool
+	varMemo   map[int]bool
 }
 
 type DefFun struct {
@@ -239,8 +242,30 @@ func (c *Ctx) DefineFun(name, text string, res Sort, deps ...string) {
 }
 
 func (c *Ctx) App(name string, res Sort, args ...*Term) *Term {
+	// the int<->bit-vector bridge: round trips and literals are folded
+	if len(args) == 1 {
+		a := args[0]
+		if strings.HasPrefix(name, "(_ int2bv ") && res.IsBV() {
+			if a.Kind == KApp && a.Op == "bv2nat" && a.Args[0].Sort == res {
+				return a.Args[0]
+			}
+			if n, ok := a.IntVal(); ok && res.BVWidth() <= 64 {
+				m := new(big.Int).Mod(n, new(big.Int).Lsh(big.NewInt(1), uint(res.BVWidth())))
+				return c.BVLit(m.Uint64(), res.BVWidth())
+			}
+		}
+		if name == "bv2nat" && a.Kind == KLit && a.Sort.IsBV() {
+			var v uint64
+			var w int
+			if _, err := fmt.Sscanf(a.Op, "(_ bv%d %d)", &v, &w); err == nil {
+				return c.BigLit(new(big.Int).SetUint64(v))
+			}
+		}
+	}
 	return c.mk(KApp, name, res, args...)
 }
+
+func isBV2Nat(t *Term) bool { return t.Kind == KApp && t.Op == "bv2nat" && len(t.Args) == 1 }
 
 // ---- literals
 
@@ -278,7 +303,7 @@ func (c *Ctx) BVLit(v uint64, w int) *Term {
 	return c.mk(KLit, fmt.Sprintf("(_ bv%d %d)", v, w), BVSort(w))
 }
 
-func (t *Term) IsOpen() bool { return t.open }
+func (t *Term) IsOpen() bool  { return t.open }
 func (t *Term) IsTrue() bool  { return t.Kind == KLit && t.Op == "true" }
 func (t *Term) IsFalse() bool { return t.Kind == KLit && t.Op == "false" }
 func (t *Term) IntVal() (*big.Int, bool) {
@@ -438,6 +463,27 @@ func (c *Ctx) Eq(a, b *Term) *Term {
 	}
 	if a.Kind == KLit && b.Kind == KLit {
 		return c.False() // distinct literals (hash-consed)
+	}
+	if a.Sort == Int && (isBV2Nat(a) || isBV2Nat(b)) {
+		// x == bv2nat(e)  <=>  0 <= x < 2^w  and  int2bv(x) == e   (bv2nat is injective with range [0, 2^w))
+		if !isBV2Nat(b) {
+			a, b = b, a
+		}
+		e := b.Args[0]
+		if isBV2Nat(a) && a.Args[0].Sort == e.Sort {
+			return c.Eq(a.Args[0], e)
+		}
+		if !isBV2Nat(a) {
+			w := e.Sort.BVWidth()
+			lim := c.BigLit(new(big.Int).Lsh(big.NewInt(1), uint(w)))
+			if n, ok := a.IntVal(); ok {
+				if n.Sign() < 0 || n.Cmp(new(big.Int).Lsh(big.NewInt(1), uint(w))) >= 0 {
+					return c.False()
+				}
+			}
+			x := c.App(fmt.Sprintf("(_ int2bv %d)", w), e.Sort, a)
+			return c.And(c.Le(c.IntLit(0), a), c.Lt(a, lim), c.Eq(x, e))
+		}
 	}
 	if a.Sort == Bool {
 		if a.IsTrue() {
@@ -668,11 +714,23 @@ func (c *Ctx) Field(dt *Datatype, i int, x *Term) *Term {
 		return x.Args[i]
 	}
 	if x.Kind == KApp && x.Op == "ite" {
-		// push selector through ite when at least one side is a constructor (keeps terms small)
-		a, b := x.Args[1], x.Args[2]
-		if (a.Kind == KApp && a.Op == dt.Ctor) || (b.Kind == KApp && b.Op == dt.Ctor) {
-			return c.Ite(x.Args[0], c.Field(dt, i, a), c.Field(dt, i, b))
+		// distribute the selector over ite (memoised, so the result stays linear in the DAG size):
+		// every field of a merged struct value becomes its own ite tree
+		key := [2]int{x.ID, i}
+		if c.fieldMemo == nil {
+			c.fieldMemo = map[string]map[[2]int]*Term{}
 		}
+		m := c.fieldMemo[string(dt.Name)]
+		if m == nil {
+			m = map[[2]int]*Term{}
+			c.fieldMemo[string(dt.Name)] = m
+		}
+		if r, ok := m[key]; ok {
+			return r
+		}
+		r := c.Ite(x.Args[0], c.Field(dt, i, x.Args[1]), c.Field(dt, i, x.Args[2]))
+		m[key] = r
+		return r
 	}
 	return c.mk(KApp, dt.Fields[i], dt.Sorts[i], x)
 }
@@ -855,11 +913,11 @@ func (c *Ctx) rebuild(t *Term, args []*Term) *Term {
 		return c.Ge(args[0], args[1])
 	}
 	// datatype selectors/constructors: re-simplify
-	for _, dt := range c.Datatypes {
-		if t.Op == dt.Ctor && t.Sort == dt.Name {
-			return c.Construct(dt, args...)
-		}
-		if len(args) == 1 && args[0].Sort == dt.Name {
+	if dt, ok := c.Datatypes[t.Sort]; ok && t.Op == dt.Ctor {
+		return c.Construct(dt, args...)
+	}
+	if len(args) == 1 {
+		if dt, ok := c.Datatypes[args[0].Sort]; ok {
 			for i, f := range dt.Fields {
 				if f == t.Op {
 					return c.Field(dt, i, args[0])
@@ -1239,4 +1297,46 @@ func (c *Ctx) Linearize(t *Term) *Term {
 		return r
 	}
 	return rec(t)
+}
+
+// HasQuant reports whether t contains a quantifier (memoised per context).
+func (c *Ctx) HasQuant(t *Term) bool {
+	if c.quantMemo == nil {
+		c.quantMemo = map[int]bool{}
+	}
+	if v, ok := c.quantMemo[t.ID]; ok {
+		return v
+	}
+	r := t.Kind == KQuant
+	if !r {
+		for _, a := range t.Args {
+			if c.HasQuant(a) {
+				r = true
+				break
+			}
+		}
+	}
+	c.quantMemo[t.ID] = r
+	return r
+}
+
+// HasVar reports whether t contains a bound variable (memoised per context).
+func (c *Ctx) HasVar(t *Term) bool {
+	if c.varMemo == nil {
+		c.varMemo = map[int]bool{}
+	}
+	if v, ok := c.varMemo[t.ID]; ok {
+		return v
+	}
+	r := t.Kind == KVar
+	if !r {
+		for _, a := range t.Args {
+			if c.HasVar(a) {
+				r = true
+				break
+			}
+		}
+	}
+	c.varMemo[t.ID] = r
+	return r
 }
